@@ -388,10 +388,13 @@ def timeout_probe(ctx):
     real = request.time
     request.time = clock
     try:
-        for body, n, block, size in ((b"", 2, 1, -1), (b"ab", 4, 8, -1),
-                                     (b"ab\r\ncd", 9, 3, 5)):
+        for body, n, block, size, tmo in (
+                (b"", 2, 1, -1, 0.05), (b"ab", 4, 8, -1, 0.05),
+                (b"ab\r\ncd", 9, 3, 5, 0.05),
+                # a zero timeout is a timeout too (the deadline is now)
+                (b"ab", 4, 8, -1, 0), (b"ab\r\ncd", 8, 3, -1, 0.0)):
             stream = Stream(body, (), 100000)
-            reader = CachedInput(stream, n, block, timeout=0.05)
+            reader = CachedInput(stream, n, block, timeout=tmo)
             outcome, lines = "returned", []
             try:
                 for _ in range(4):
@@ -405,7 +408,7 @@ def timeout_probe(ctx):
             except Spin:
                 outcome = "more than 100000 reads"
             bound = (n if size < 0 else size) + 2
-            ctx.case(("timeout", body, n, block, size))
+            ctx.case(("timeout", body, n, block, size, tmo))
             ctx.count("timeout probe: " + outcome)
             if outcome == "more than 100000 reads":
                 # the deadline (50 ticks of the controlled clock) passed long
@@ -413,7 +416,7 @@ def timeout_probe(ctx):
                 # busy-wait, which ends with TimeoutError
                 ctx.violation("timeout-never-fires", {
                     "body": body.decode("latin-1"), "n": n, "block": block,
-                    "timeout": 0.05, "clock": "1 ms per time() call",
+                    "timeout": tmo, "clock": "1 ms per time() call",
                     "call": "readline(%d)" % size,
                     "underlying_reads_in_call": len(stream.log)})
             elif len(stream.log) > bound or outcome != "returned":
